@@ -18,6 +18,7 @@ import ZlModel.Cli
 import ZlModel.Walkers
 import ZlModel.Names
 import ZlModel.Thresholds
+import ZlModel.Der
 open Zl Zl.Proto
 
 namespace Zl.Driver
@@ -413,6 +414,21 @@ def opThr (kind : String) (fields : List String) : String :=
     toString (Thresholds.givenNameMax names) ++ "," ++ toString (Thresholds.givenNameRecommended names)
   | _, _ => "bad-op"
 
+/-! ### DER reader and the raw-bytes walk (C09) -/
+
+def opDer (kind : String) (fields : List String) : String :=
+  match kind, fields with
+  | "der-read", [h] =>
+    match Der.readAny ((unhexBytes h).getD []) with
+    | none => "fail"
+    | some (t, c, r) => toString t ++ " " ++ hexOfBytes c ++ " " ++ hexOfBytes r
+  | "der-walk", [h] =>
+    match Der.walk ((unhexBytes h).getD []) with
+    | .fatalCert => "fatal:certificate" | .fatalTbs => "fatal:tbsCertificate" | .fatalAlg => "fatal:signatureAlgorithm"
+    | .fatalVersion => "fatal:version" | .fatalSerial => "fatal:serialNumber" | .fatalTbsAlg => "fatal:signature"
+    | .error => "error" | .pass => "pass"
+  | _, _ => "bad-op"
+
 def step (line : String) : String :=
   match line.splitOn "\t" with
   | "fw" :: rest => opFw rest
@@ -438,6 +454,8 @@ def step (line : String) : String :=
   | "dec" :: rest => opDec rest
   | "src" :: rest => opSrc rest
   | "srclist" :: rest => opSrcList rest
+  | "der-read" :: rest => opDer "der-read" rest
+  | "der-walk" :: rest => opDer "der-walk" rest
   | "names" :: rest => opNames rest
   | "thr-val" :: rest => opThr "thr-val" rest
   | "thr-rc" :: rest => opThr "thr-rc" rest
